@@ -4,6 +4,7 @@ package main
 // invariants and calls replaced by contracts.
 
 import (
+	"math/big"
 	"sync"
 	"fmt"
 	"go/constant"
@@ -328,6 +329,7 @@ type Run struct {
 	trustedUsed map[string]bool
 	safe        bool
 	overflow    bool
+	cmode       bool // extracted C code: exact wrap-around conversions, type ranges of loaded and returned integers
 	retPaths    int
 	caseTag     string // current case split, for messages
 	safeKinds   map[string]bool // non-empty: only these kinds (assert, bounds, slice, nil, nilrecv, div, ...) are obligations
@@ -1313,6 +1315,17 @@ func (r *Run) assumeWF(st *State, v *Val, te TypeEnv) {
 	if len(ls) != len(v.L) {
 		return
 	}
+	if r.cmode {
+		for i := range ls {
+			if ls[i].Sort == SInt && ls[i].T != nil && v.L[i].Kind != KLit {
+				if b, ok := types.Unalias(te.apply(ls[i].T)).Underlying().(*types.Basic); ok && b.Info()&types.IsInteger != 0 {
+					if lo, hi := intRange(b); lo != nil {
+						st.assume(And(Le(lo, v.L[i]), Le(v.L[i], hi)))
+					}
+				}
+			}
+		}
+	}
 	for i := 0; i < len(ls); i++ {
 		if ls[i].Sort == SInt && ls[i].T != nil && v.L[i].Kind != KLit {
 			switch types.Unalias(te.apply(ls[i].T)).Underlying().(type) {
@@ -1847,6 +1860,9 @@ func (r *Run) binop(st *State, fr *Frame, x *ssa.BinOp) *Val {
 		case token.GEQ:
 			return res(Ge(at, bt))
 		case token.AND, token.OR, token.XOR, token.SHL, token.SHR, token.AND_NOT:
+			if t := bitopArith(x.Op, at, bt); t != nil {
+				return res(t)
+			}
 			return res(UF("bitop!"+x.Op.String(), SInt, at, bt))
 		}
 	case SBool:
@@ -1983,6 +1999,12 @@ func (r *Run) convert(st *State, fr *Frame, x *ssa.Convert) *Val {
 					h1, _ := hi.IntVal()
 					l0, _ := flo.IntVal()
 					h0, _ := fhi.IntVal()
+					if (l0.Cmp(l1) < 0 || h0.Cmp(h1) > 0) && r.cmode {
+						// exact two's complement conversion: reduce modulo 2^N into the target range
+						span := new(big.Int).Add(new(big.Int).Sub(h1, l1), big.NewInt(1))
+						w := Add(App("mod", SInt, Sub(xv.L[0], IntBig(l1)), IntBig(span)), IntBig(l1))
+						return &Val{T: x.Type(), L: []*Term{w}}
+					}
 					if l0.Cmp(l1) < 0 || h0.Cmp(h1) > 0 {
 						// narrowing conversion: exact only if the value fits
 						if r.overflow {
@@ -2127,4 +2149,57 @@ func (r *Run) next(st *State, fr *Frame, x *ssa.Next) *Val {
 func isInvalid(t types.Type) bool {
 	b, ok := t.(*types.Basic)
 	return ok && b.Kind() == types.Invalid
+}
+
+// bitopArith gives exact integer-arithmetic meanings to bit operations with a literal operand:
+//   x & m  with m = 2^a - 2^b (a contiguous run of ones, b >= 0):  (x mod 2^a) - (x mod 2^b)
+//   x << k = x * 2^k ;  x >> k = floor(x / 2^k)   (two's complement, value-preserving while in range)
+// (SMT-LIB mod is non-negative and div floors for positive divisors, which is two's complement behaviour).
+func bitopArith(op token.Token, a, b *Term) *Term {
+	lit := func(t *Term) (*big.Int, bool) {
+		if t.Kind == KLit && t.Sort == SInt {
+			n, ok := new(big.Int).SetString(t.Op, 10)
+			return n, ok
+		}
+		return nil, false
+	}
+	pow2 := func(k int) *Term { return IntBig(new(big.Int).Lsh(big.NewInt(1), uint(k))) }
+	switch op {
+	case token.AND:
+		m, ok := lit(b)
+		x := a
+		if !ok {
+			m, ok = lit(a)
+			x = b
+		}
+		if !ok || m.Sign() < 0 {
+			return nil
+		}
+		if m.Sign() == 0 {
+			return IntLit(0)
+		}
+		lowbit := 0
+		for m.Bit(lowbit) == 0 {
+			lowbit++
+		}
+		top := new(big.Int).Add(m, new(big.Int).Lsh(big.NewInt(1), uint(lowbit)))
+		// contiguous run of ones iff m + lowbit is a power of two
+		if top.BitLen()-1 < 0 || new(big.Int).Lsh(big.NewInt(1), uint(top.BitLen()-1)).Cmp(top) != 0 {
+			return nil
+		}
+		hi := top.BitLen() - 1
+		if lowbit == 0 {
+			return App("mod", SInt, x, pow2(hi))
+		}
+		return Sub(App("mod", SInt, x, pow2(hi)), App("mod", SInt, x, pow2(lowbit)))
+	case token.SHL:
+		if k, ok := lit(b); ok && k.Sign() >= 0 && k.BitLen() < 8 {
+			return Mul(a, pow2(int(k.Int64())))
+		}
+	case token.SHR:
+		if k, ok := lit(b); ok && k.Sign() >= 0 && k.BitLen() < 8 {
+			return App("div", SInt, a, pow2(int(k.Int64())))
+		}
+	}
+	return nil
 }
